@@ -30,10 +30,11 @@ const (
 )
 
 type Clause struct {
-	Trusted bool   // assumed for callers, not proved from the body (listed as an assumption)
-	Text    string // specification source
-	Wrapper string // name of the generated Go function holding the expression
-	Line    int
+	Invariant bool   // requires_inv
+	Trusted   bool   // assumed for callers, not proved from the body (listed as an assumption)
+	Text      string // specification source
+	Wrapper   string // name of the generated Go function holding the expression
+	Line      int
 }
 
 type AssertBefore struct {
@@ -110,7 +111,7 @@ type PkgContracts struct {
 
 var clauseKeywords = map[string]bool{
 	"func": true, "trusted": true, "pure": true, "inline": true, "ignore": true, "spec": true, "lemma": true, "import": true,
-	"requires": true, "ensures": true, "modifies": true, "loop": true, "arith": true, "overflow": true, "allow_panic": true,
+	"requires": true, "requires_inv": true, "ensures": true, "modifies": true, "loop": true, "arith": true, "overflow": true, "allow_panic": true,
 	"theory": true, "untrusted_input": true, "pragma": true, "assert": true, "note": true, "tparams": true, "ghost": true, "decl": true, "atcall": true, "ignorepkg": true, "trusted_ensures": true,
 	"guarded_by": true, "requires_held": true, "holds_during": true, "lock_order": true, "unshared": true, "lock_alias": true, "assert_before": true, "assert_after": true, "hint_after": true, "closure_requires": true,
 }
@@ -353,6 +354,10 @@ func loadContracts(dir, pkgPath string) (*PkgContracts, error) {
 			switch c.kw {
 			case "requires":
 				cur.Requires = append(cur.Requires, &Clause{Text: c.text, Line: c.line})
+			case "requires_inv":
+				// a representation invariant of the callee's package: proved at call sites inside
+				// that package, assumed (and reported) at call sites in other packages
+				cur.Requires = append(cur.Requires, &Clause{Text: c.text, Line: c.line, Invariant: true})
 			case "ensures":
 				cur.Ensures = append(cur.Ensures, &Clause{Text: c.text, Line: c.line})
 			case "trusted_ensures":
